@@ -135,6 +135,42 @@ example : LitsFinite sampleArith := by
   simp only [sampleArith, LitsFinite]
   exact ⟨⟨trivial, h 2 (by norm_num)⟩, h 3 (by norm_num)⟩
 
+/-! ### scientific literals with any decimal mantissa (defect D0101, repaired)
+
+  The tokenizer's scientific-notation guard used to glue the exponent sign only onto the normalised
+  mantissa `d(.ddd)?`; `=80E-3` evaluated to `-3` (`80E` read as a name, then `- 3`).  With the guard
+  widened to every decimal numeral the grammar (`NumLit.WF`) covers `80E-3`, `12.5E+0`, `.5E+1`, `5.E-1`
+  as well, and `C01` applies to them like to any other literal. -/
+
+def lit80Em3 : NumLit := { ip := [8, 0], exp := some (true, [3]) }
+def litDot5Ep1 : NumLit := { ip := [], fp := some [5], exp := some (false, [1]) }
+def lit5DotEm1 : NumLit := { ip := [5], fp := some [], exp := some (true, [1]) }
+
+example : lit80Em3.text = "80E-3".toList ∧ litDot5Ep1.text = ".5E+1".toList ∧
+    lit5DotEm1.text = "5.E-1".toList := by decide
+
+example : lit80Em3.WF ∧ litDot5Ep1.WF ∧ lit5DotEm1.WF := by
+  simp [lit80Em3, litDot5Ep1, lit5DotEm1, NumLit.WF, NumLit.fdigits, AllDigits]
+
+example : litValue lit80Em3 = 2 / 25 ∧ litValue litDot5Ep1 = 5 ∧ litValue lit5DotEm1 = 1 / 2 := by
+  norm_num [lit80Em3, litDot5Ep1, lit5DotEm1, litValue, digitsVal, NumLit.fdigits, expInt]
+
+/-- `=80E-3` evaluates to 0.08, whatever the cells hold: an instance of `C01` -/
+theorem C01_sci_mantissa_example (m : Model.C01.Env) (s : Spec.C01.Env) (henv : EnvOK m s) :
+    Agree (evaluateFormula "=80E-3".toList m) (.num (2 / 25)) := by
+  have hv : litValue lit80Em3 = 2 / 25 := by
+    norm_num [lit80Em3, litValue, digitsVal, NumLit.fdigits, expInt]
+  have hr : render Blanks.none (.num lit80Em3 false) = "=80E-3".toList := by decide
+  have hd : denote s (.num lit80Em3 false) = .num (2 / 25) := by simp [denote, hv]
+  have hfin : LitsFinite (.num lit80Em3 false) := by
+    show litValue lit80Em3 < Model.Value.floatMax
+    rw [hv]; unfold Model.Value.floatMax
+    calc (2 / 25 : ℚ) < 2 ^ 1 := by norm_num
+      _ ≤ 2 ^ 1024 := pow_le_pow_right₀ (by norm_num) (by norm_num)
+  have := C01 (.num lit80Em3 false) Blanks.none m s henv
+    (by simp [WF, lit80Em3, NumLit.WF, NumLit.fdigits, AllDigits]) rfl hfin (by rw [hd]; simp)
+  rwa [hr, hd] at this
+
 /-! ### division by zero -/
 
 /-- `C01_div0`: a division whose divisor denotes 0 (and whose operands are numbers) evaluates to
